@@ -233,9 +233,40 @@ func c12Union(c *core.Ctx, root *packages.Package) {
 		return
 	}
 	drain := an.ParamName(fn.Decl.Type, 0)
-	eng := &an.Engine{Prog: c.P,
+	// the emit mark by role: the time the emit loop compares a buffered value against (`!v.Time().After(mark)` guarding emit)
+	var markObj types.Object
+	ast.Inspect(fn.Decl.Body, func(n ast.Node) bool {
+		ifs, ok := n.(*ast.IfStmt)
+		if !ok {
+			return true
+		}
+		emits := false
+		ast.Inspect(ifs.Body, func(m ast.Node) bool {
+			if call, ok := m.(*ast.CallExpr); ok {
+				if f := core.Callee(info, call); f != nil && f.Name() == "emit" {
+					emits = true
+				}
+			}
+			return true
+		})
+		if !emits {
+			return true
+		}
+		ast.Inspect(ifs.Cond, func(m ast.Node) bool {
+			if call, ok := m.(*ast.CallExpr); ok && len(call.Args) == 1 {
+				if sel, ok := call.Fun.(*ast.SelectorExpr); ok && (sel.Sel.Name == "After" || sel.Sel.Name == "Before") {
+					if id, ok := ast.Unparen(call.Args[0]).(*ast.Ident); ok {
+						markObj = info.Uses[id]
+					}
+				}
+			}
+			return true
+		})
+		return true
+	})
+	eng := &an.Engine{Prog: c.P, Alias: map[string]string{an.RecvVarName(fn.Decl): "n"},
 		TrackStore: func(lhs ast.Expr, key string) string {
-			if id, ok := ast.Unparen(lhs).(*ast.Ident); ok && id.Name == "mark" {
+			if id, ok := ast.Unparen(lhs).(*ast.Ident); ok && markObj != nil && (info.Uses[id] == markObj || info.Defs[id] == markObj) {
 				return "mark"
 			}
 			return ""
@@ -279,7 +310,7 @@ func c12Union(c *core.Ctx, root *packages.Package) {
 		// an early `return nil` because not every parent has a value is only allowed when not draining
 		if len(p.Rets) == 1 && p.Rets[0] == "nil" && p.Exit == "return" && !p.Has("emit") {
 			for _, l := range p.Lits {
-				if strings.Contains(l.Key, "validSources") || strings.Contains(l.Key, "len(n.sources)") {
+				if strings.Contains(l.Key, "len(n.sources)") {
 					d, decided := a["drain"]
 					if (!decided || d) && l.Val == false && strings.Contains(l.Key, "==") {
 						good = false
@@ -378,7 +409,16 @@ func c12Join(c *core.Ctx, root *packages.Package) {
 			c.Fail("C12.roles", "newJoinset#literal", fn.Decl.Pos(), "no joinset literal")
 		} else {
 			got := litFieldSet(lit)
-			c.Check(got["first"] == "expected" || got["first"] == "len(prefixes)", "C12.first", "newJoinset#first", lit.Pos(), "first must start at the number of parents (no parent present yet), starts at %q", got["first"])
+			prefixesP := an.ParamName(fn.Decl.Type, 4)
+			firstInit := got["first"]
+			// a local holding the count: resolve it to its definition
+			ast.Inspect(fn.Decl.Body, func(n ast.Node) bool {
+				if as, ok := n.(*ast.AssignStmt); ok && as.Tok == token.DEFINE && len(as.Lhs) == 1 && len(as.Rhs) == 1 && types.ExprString(as.Lhs[0]) == firstInit {
+					firstInit = types.ExprString(as.Rhs[0])
+				}
+				return true
+			})
+			c.Check(firstInit == "len("+prefixesP+")", "C12.first", "newJoinset#first", lit.Pos(), "first must start at the number of parents (no parent present yet), starts at %q", got["first"])
 			// parameter → field roles
 			want := map[string]string{"j": an.ParamName(fn.Decl.Type, 0), "name": an.ParamName(fn.Decl.Type, 1), "fill": an.ParamName(fn.Decl.Type, 2), "fillValue": an.ParamName(fn.Decl.Type, 3),
 				"prefixes": an.ParamName(fn.Decl.Type, 4), "delimiter": an.ParamName(fn.Decl.Type, 5), "tolerance": an.ParamName(fn.Decl.Type, 6), "time": an.ParamName(fn.Decl.Type, 7), "diag": an.ParamName(fn.Decl.Type, 8)}
@@ -487,6 +527,14 @@ func c12Join(c *core.Ctx, root *packages.Package) {
 	// C12.prefix
 	if fn := c.Need("C12.prefix", "", "joinset", "JoinIntoPoint"); fn != nil {
 		js := an.RecvVarName(fn.Decl)
+		// the index variable of the loop over the set's values
+		idxName := "i"
+		ast.Inspect(fn.Decl.Body, func(n ast.Node) bool {
+			if rs, ok := n.(*ast.RangeStmt); ok && rs.Key != nil && types.ExprString(rs.X) == js+".values" {
+				idxName = types.ExprString(rs.Key)
+			}
+			return true
+		})
 		eng := &an.Engine{Prog: c.P, ElemKeys: false,
 			TrackCall: func(call *ast.CallExpr, callee *types.Func) string {
 				if callee != nil && callee.Name() == "NewPointMessage" {
@@ -555,7 +603,7 @@ func c12Join(c *core.Ctx, root *packages.Package) {
 					}
 				case decided && !miss:
 					// the value comes from the fields of values[idx]: v~ is the range value, p.Fields() of it; index must be the same loop index variable
-					if !strings.HasPrefix(idx, "i~") && idx != "i" {
+					if !strings.HasPrefix(idx, idxName+"~") && idx != idxName {
 						good = false
 						c.Fail("C12.prefix", "joinset.JoinIntoPoint#index", e.Pos, "the prefix index %s is not the index of the value being joined", idx)
 					}
@@ -588,7 +636,7 @@ func c12Passed(c *core.Ctx, pkg *packages.Package) {
 		return
 	}
 	info := pkg.TypesInfo
-	eng := &an.Engine{Prog: c.P, ElemKeys: true, BoolReturns: true,
+	eng := &an.Engine{Prog: c.P, ElemKeys: true, BoolReturns: true, Alias: map[string]string{an.RecvVarName(fn.Decl): "g"},
 		TrackStore: func(lhs ast.Expr, key string) string {
 			if id, ok := ast.Unparen(lhs).(*ast.Ident); ok {
 				if v, ok := info.Uses[id].(*types.Var); ok && types.Identical(v.Type(), types.Typ[types.Bool]) {
@@ -638,7 +686,7 @@ func c12Passed(c *core.Ctx, pkg *packages.Package) {
 func c12Queue(c *core.Ctx, pkg *packages.Package) {
 	info := pkg.TypesInfo
 	if fn := c.Need("C12.queue", "", "CircularQueue", "Enqueue"); fn != nil {
-		eng := &an.Engine{Prog: c.P,
+		eng := &an.Engine{Prog: c.P, Alias: map[string]string{an.RecvVarName(fn.Decl): "q"},
 			TrackCall: func(call *ast.CallExpr, callee *types.Func) string {
 				if core.IsBuiltin(info, call, "copy") {
 					return "copy"
@@ -739,7 +787,7 @@ func c12Queue(c *core.Ctx, pkg *packages.Package) {
 		}
 	}
 	if fn := c.Need("C12.queue", "", "CircularQueue", "Peek"); fn != nil {
-		eng := &an.Engine{Prog: c.P,
+		eng := &an.Engine{Prog: c.P, Alias: map[string]string{an.RecvVarName(fn.Decl): "q", an.ParamName(fn.Decl.Type, 0): "i"},
 			Classify: func(a an.Atom) (string, bool) {
 				if strings.HasSuffix(a.Key, "< len(q.data)") && strings.Contains(a.Key, "q.head + ") {
 					return "inrange", false
@@ -752,7 +800,7 @@ func c12Queue(c *core.Ctx, pkg *packages.Package) {
 			return
 		}
 		good, n := len(paths) > 0, 0
-		i := an.ParamName(fn.Decl.Type, 0)
+		i := "i"
 		for _, p := range paths {
 			if len(p.Rets) != 1 || p.Exit != "return" {
 				continue
